@@ -253,6 +253,7 @@ fn check_err(case: &ErrCase, ctx: &mut Ctx) -> Result<(), Fail> {
 pub fn property() -> Property {
     Property {
         id: "C08",
+        quick_mult: 48,
         rule: "designs U diag(s) V^T (cond 3, 30 or 1e3), 1<=p<=6, p<n<=40 (quick) / 60 (thorough), columns rescaled by 10^[-1,2] and shifted; targets from a sparse ground truth (inactive coefficients exactly zero) plus noise with mean 0, moderate, or 1e3..1e6 x spread; alpha = fraction in (0, 1.2] of alpha_max computed by the oracle, or 1e-3..1 x alpha_max; l1_ratio = 1 or in (0,1]; tol 1e-6..1e-3; both normalisations; Lasso and elastic net on every case, each fitted a second time on shifted targets. non-trivial = the oracle solution has a proper sparse support (0 < |support| < p); distinct = distinct serialised case",
         assumptions: vec![
             format!("the reference optimum is cyclic coordinate descent on the stated objective, run to a step below 1e-13*||y_c||; the reported objective may exceed it by {} * tol * F* + 1e-10 ||y_c||^2", K),
